@@ -103,22 +103,30 @@ FailRoll ==
 
 -----------------------------------------------------------------------------------------
 (* merge *)
-MergeSysPcs == {"m.create_data", "m.create_hint", "m.loop", "m.hint", "m.roll_sync_data", "m.roll_sync_hint",
+MergeSysPcs == {"m.create_data", "m.create_hint", "m.loop", "m.copy", "m.hint", "m.roll_sync_data", "m.roll_sync_hint",
                 "m.sync_data", "m.sync_hint", "m.unlink", "m.unlink_data"}
 \* the failing call does nothing; dropped writers flush what they retained; then the wrapper
 FailMerge ==
     /\ CanFail /\ Faulted /\ wr.pc \in MergeSysPcs
     /\ (wr.pc = "m.loop" => MergeTodo # {})        \* the failing call is the copy of some record
     /\ (wr.pc = "m.unlink" => wr.unl # {})         \* (the final create is FailMergeNewActive)
+    \* the failing write of a copy is a flush of the output's BufWriter: the piece stays in the buffer and lands
+    \* when the writer is dropped - the whole record (unindexed) if it was the last piece, a torn tail otherwise
     /\ \/ /\ wr.pc = "m.loop"
           /\ \E k \in MergeTodo :
-                LET e == EntryAt(data[keydir[k].fid], keydir[k].pos)
-                IN data' = [data EXCEPT ![wr.out] = LastWrite(@, e)]     \* lands on drop, unindexed
+                LET e == MergeSrcEntry(k)
+                    calls == CWrites(e.k, e.v)
+                IN data' = [data EXCEPT ![wr.out] = IF Len(calls) = 1 THEN LastWrite(@, e) ELSE TornWrite(@, calls[1])]
+          /\ UNCHANGED hint
+       \/ /\ wr.pc = "m.copy"
+          /\ LET e == MergeSrcEntry(wr.k)
+                 calls == CWrites(e.k, e.v)
+             IN data' = [data EXCEPT ![wr.out] = IF wr.ci = Len(calls) THEN LastWrite(@, e) ELSE TornWrite(@, calls[wr.ci])]
           /\ UNCHANGED hint
        \/ /\ wr.pc = "m.hint"
           /\ hint' = [hint EXCEPT ![wr.out] = LastWrite(@, [k |-> wr.k, pos |-> keydir[wr.k].pos, len |-> keydir[wr.k].len])]
           /\ UNCHANGED data
-       \/ /\ wr.pc \notin {"m.loop", "m.hint"} /\ UNCHANGED <<data, hint>>
+       \/ /\ wr.pc \notin {"m.loop", "m.copy", "m.hint"} /\ UNCHANGED <<data, hint>>
     \* a failed unlink of the hint file: with the old order the statistics were already gone
     /\ stats' = IF wr.pc \in {"m.unlink", "m.unlink_data"} /\ wr.unl # {} /\ "StatsDroppedBeforeUnlink" \in FDev
                   THEN Drop(stats, NextUnlink) ELSE stats
